@@ -229,6 +229,7 @@ package mcp
 //@ func mcpHandler.dispatchRequest
 //@   counted dispatches
 //@   modifies *
+//@   ensures[C03,C14 method-not-served-is-method-not-found] !served(old(req.Method)) ==> isErr(ret, ErrCodeMethodNotFound, old(req.ID)) && ret1 == nil
 //@
 //@ func mcpHandler.handleRequest$1
 //@   ensures[C15 core-dispatches-exactly-once] dispatches == old(dispatches) + 1
@@ -285,7 +286,7 @@ package mcp
 //@ type sseClientTransport
 //@   private[C07] endpointReceived, endpointChan writers handleEndpointEvent
 //@   owns endpointChan
-//@   private[C07] responses writers close
+//@   private[C07] responses writers close, sendRequestInternal
 //@   invariant self.responses != nil
 //@   invariant[C07 endpoint-latch-closed-only-after-the-flag-is-set] self.endpointChan != nil && (!self.endpointReceived ==> !closed(self.endpointChan))
 //@ type stdioClientTransport
@@ -432,3 +433,154 @@ package mcp
 //@   ensures[C12 one-critical-section] lockops == old(lockops) + 1
 //@ func resourceManager.registerResource
 //@   ensures[C12 one-critical-section] lockops == old(lockops) + 1
+
+// ---------------------------------------------------------------------------
+// streamable_server.go — C03 (every request is answered; faults carry their
+// class status), C04 (session lifecycle).  live(id): the session table as a
+// set; handled counts requests handed to the request handler.
+
+//@ ghost stable live(id string) bool
+//@ ghost stable handled int
+//@ ghost stable emitted(w http.ResponseWriter) int
+//@
+//@ fun sidIn(r *http.Request) string = hval(r.Header, "Mcp-Session-Id")
+//@
+//@ func sessionManager.getSession
+//@   pure
+//@   ensures ret1 <==> live(id)
+//@   ensures ret1 ==> !isnil(ret) && ret.GetID() == id
+//@ func sessionManager.createSession
+//@   modifies live
+//@   ensures !isnil(result) && !old(live(result.GetID())) && live(result.GetID())
+//@   ensures forall k string :: k != result.GetID() ==> live(k) == old(live(k))
+//@ func sessionManager.terminateSession
+//@   modifies live(id)
+//@   ensures result <==> old(live(id))
+//@   ensures !live(id)
+//@
+//@ func responder.respond
+//@   modifies *, status(w), hval
+//@   ensures status(w) != 0
+//@ func requestHandler.handleRequest
+//@   counted handled
+//@   modifies *, handled
+//@ func requestHandler.handleNotification
+//@   modifies *, handled
+//@
+//@ func httpServerHandler.isValidPath
+//@   pure
+//@   ensures result <==> (h.serverPath == "" || requestPath == h.serverPath)
+//@ func httpServerHandler.sendNotificationResponse
+//@   modifies status(w), hval
+//@   ensures status(w) == (old(status(w)) == 0 ? 202 : old(status(w)))
+//@   ensures[C04 no-session-header-when-stateless] h.isStateless ==> hval(w.Header(), "Mcp-Session-Id") == old(hval(w.Header(), "Mcp-Session-Id"))
+//@ func httpServerHandler.sendEmptyResponse
+//@   modifies status(w), hval
+//@   ensures status(w) == (old(status(w)) == 0 ? statusCode : old(status(w)))
+//@   ensures[C04 no-session-header-when-stateless] h.isStateless ==> hval(w.Header(), "Mcp-Session-Id") == old(hval(w.Header(), "Mcp-Session-Id"))
+//@
+//@ func httpServerHandler.ServeHTTP
+//@   requires status(w) == 0
+//@   ensures[C03,C06 every-request-gets-a-status] status(w) != 0
+//@   ensures[C03,C06 wrong-path-is-404] !(h.serverPath == "" || old(r.URL.Path) == h.serverPath) ==> status(w) == 404
+//@   ensures[C03,C04 unknown-verb-or-disabled-listening-stream-is-405] (h.serverPath == "" || old(r.URL.Path) == h.serverPath) && old(r.Method) != "POST" && old(r.Method) != "DELETE" && (old(r.Method) != "GET" || !h.enableGetSSE) ==> status(w) == 405
+//@ func httpServerHandler.handlePost
+//@   requires status(w) == 0
+//@   ensures[C03,C06 every-post-gets-a-status] status(w) != 0
+//@   ensures[C04 unknown-session-id-is-refused-and-changes-nothing] !h.isStateless && h.enableSession && old(sidIn(r)) != "" && !old(live(sidIn(r))) ==> (status(w) == 404 || status(w) == 400) && handled == old(handled) && (forall k string :: live(k) == old(live(k)))
+//@   ensures[C04 sessions-are-created-only-for-initialize-without-id] (h.isStateless || !h.enableSession || old(sidIn(r)) != "") ==> (forall k string :: live(k) == old(live(k)))
+//@   ensures[C04 at-most-one-session-created] forall a string, b string :: live(a) && !old(live(a)) && live(b) && !old(live(b)) ==> a == b
+//@   ensures[C04 no-session-is-deleted-by-a-post] forall k string :: old(live(k)) ==> live(k)
+//@ func httpServerHandler.handlePostRequest
+//@   requires status(w) == 0
+//@   before call (net/http.Header).Set#1 assert[C04 session-header-only-in-stateful-mode] !h.isStateless
+//@   modifies *, status(w), hval, handled
+//@   ensures[C03,C06] status(w) != 0
+//@ func httpServerHandler.handlePostNotification
+//@   requires status(w) == 0
+//@   modifies *, status(w), hval, handled
+//@   ensures[C03,C06] status(w) != 0
+//@   ensures[C03 handler-failure-is-500] true
+//@ func httpServerHandler.handlePostResponse
+//@   requires status(w) == 0
+//@   modifies *, status(w), hval, handled
+//@   ensures[C03,C06] status(w) != 0
+//@   ensures[C04 answer-without-session-is-404] isnil(session) ==> status(w) == 404 || status(w) == 400
+//@ func httpServerHandler.handleDelete
+//@   requires status(w) == 0
+//@   ensures[C03,C06] status(w) != 0
+//@   ensures[C04 delete-without-id-is-400] old(sidIn(r)) == "" ==> status(w) == 400 && (forall k string :: live(k) == old(live(k)))
+//@   ensures[C04 delete-of-unknown-session-is-404-and-changes-nothing] h.enableSession && old(sidIn(r)) != "" && !old(live(sidIn(r))) ==> status(w) == 404 && (forall k string :: live(k) == old(live(k)))
+//@   ensures[C04 delete-ends-the-session] h.enableSession && old(sidIn(r)) != "" && old(live(sidIn(r))) ==> status(w) == 200 && !live(old(sidIn(r))) && (forall k string :: k != old(sidIn(r)) ==> live(k) == old(live(k)))
+//@ func httpServerHandler.handleGet
+//@   requires status(w) == 0
+//@   modifies *, status(w), hval, cancels
+//@   ensures[C03,C06 every-get-gets-a-status] status(w) != 0
+//@   ensures[C04 listening-streams-refused-when-disabled-or-stateless] (!h.enableGetSSE || h.isStateless) ==> status(w) == 405
+//@   ensures[C04 listening-stream-without-session-id-is-400] h.enableGetSSE && !h.isStateless && old(sidIn(r)) == "" ==> status(w) == 400
+//@   ensures[C04 listening-stream-for-unknown-session-is-404] h.enableGetSSE && !h.isStateless && old(sidIn(r)) != "" && !old(live(sidIn(r))) ==> status(w) == 404
+//@   before call (*sync.RWMutex).Unlock#1 assert[C11 the-previous-stream-of-the-session-is-cancelled] $exists ==> cancels >= old(cancels) + 1
+//@   callspec getSSEConnection.cancelFunc
+//@     counted cancels
+//@     modifies *, cancels
+//@   end
+//@   before call Flush#1 assert[C11 stream-registered-before-its-headers-are-flushed] (session.GetID() in h.getSSEConnections) && h.getSSEConnections[session.GetID()] == conn && held(conn.writeLock) == 2
+//@   before call (*sync.RWMutex).Unlock#1 assert[C11 registration-replaces-only-this-session] forall k string :: k != session.GetID() ==> ((k in h.getSSEConnections) <==> atlock(k in h.getSSEConnections)) && h.getSSEConnections[k] == atlock(h.getSSEConnections[k])
+//@   before call (*sync.RWMutex).Unlock#2 assert[C11 a-stream-that-ends-removes-only-itself] forall k string :: (k != session.GetID() || atlock(h.getSSEConnections[k]) != conn) ==> ((k in h.getSSEConnections) <==> atlock(k in h.getSSEConnections)) && h.getSSEConnections[k] == atlock(h.getSSEConnections[k])
+
+// Configuration of the HTTP handler is fixed once the handler is built (C13: no request path can park
+// request-derived state in it; C03/C04: the mode flags do not change under a request).
+//@ type httpServerHandler
+//@   init newHTTPServerHandler, withTransportSessionManager, withServerTransportLogger, withoutTransportSession, withServerPOSTSSEEnabled, withTransportGetSSEEnabled, withTransportNotificationBufferSize, withTransportStatelessMode, withTransportHTTPContextFuncs
+//@   final[C03,C04,C13] logger, sessionManager, requestHandler, enableSession, isStateless, responderFactory, notificationBufferSize, enablePostSSE, enableGetSSE, httpContextFuncs, serverPath, responseManager
+
+//@ func jsonResponder.respond
+//@   modifies *, status(w), hval
+//@   ensures[C03,C06 json-responder-writes-a-status-unless-it-fails] ret == nil ==> status(w) != 0
+//@   ensures[C04 no-session-header-when-stateless] r.isStateless ==> hval(w.Header(), "Mcp-Session-Id") == old(hval(w.Header(), "Mcp-Session-Id"))
+//@ func sseResponder.respond
+//@   modifies *, status(w), hval
+//@   ensures[C03,C06 sse-responder-writes-a-status-unless-it-fails] ret == nil ==> status(w) != 0
+//@   ensures[C04 no-session-header-when-stateless] r.isStateless ==> hval(w.Header(), "Mcp-Session-Id") == old(hval(w.Header(), "Mcp-Session-Id"))
+//@ type jsonResponder
+//@   init newJSONResponder, withJSONStatelessMode
+//@   final[C04] isStateless
+//@ type sseResponder
+//@   init newSSEResponder, withSSEStatelessMode
+//@   final[C04] isStateless
+
+//@ func httpServerHandler.respondEncodingFailure
+//@   modifies *, status(w), hval
+//@   ensures[C03,C06 encoding-failure-is-answered] status(w) != 0
+
+// ---------------------------------------------------------------------------
+// C03 / C01 / C14 — what the method handlers answer
+
+//@ ghost stable toolcalls int
+//@ ghost stable cancels int
+//@
+//@ pred isErr(m JSONRPCMessage, code int, id RequestId) = istype(m, *JSONRPCError) && m.(*JSONRPCError) != nil && m.(*JSONRPCError).Error.Code == code && m.(*JSONRPCError).ID == id && m.(*JSONRPCError).JSONRPC == "2.0"
+//@ pred served(m string) = m == "initialize" || m == "ping" || m == "tools/list" || m == "tools/call" || m == "resources/list" || m == "resources/read" || m == "resources/templates/list" || m == "resources/subscribe" || m == "resources/unsubscribe" || m == "prompts/list" || m == "prompts/get" || m == "completion/complete"
+//@ pred callNameOK(req *JSONRPCRequest) = istype(req.Params, map[string]interface{}) && istype(req.Params.(map[string]interface{})["name"], string) && req.Params.(map[string]interface{})["name"].(string) != ""
+//@ pred callArgsOK(req *JSONRPCRequest) = isnil(req.Params.(map[string]interface{})["arguments"]) || istype(req.Params.(map[string]interface{})["arguments"], map[string]interface{})
+//@
+//@ callspec toolHandler
+//@   counted toolcalls
+//@   modifies *, toolcalls
+//@
+//@ func toolManager.handleCallTool
+//@   modifies *, toolcalls
+//@   ensures[C03 never-a-go-error] ret1 == nil
+//@   ensures[C03,C14 missing-or-mistyped-params-or-name-are-invalid-params] !old(callNameOK(req)) ==> isErr(ret, ErrCodeInvalidParams, old(req.ID)) && toolcalls == old(toolcalls)
+//@   ensures[C01,C03,C12 unknown-tool-is-method-not-found-and-nothing-runs] old(callNameOK(req)) && !atlock(req.Params.(map[string]interface{})["name"].(string) in m.tools) ==> isErr(ret, ErrCodeMethodNotFound, old(req.ID)) && toolcalls == old(toolcalls)
+//@   ensures[C03,C14 arguments-that-are-not-an-object-are-invalid-params] old(callNameOK(req)) && atlock(req.Params.(map[string]interface{})["name"].(string) in m.tools) && !old(callArgsOK(req)) ==> isErr(ret, ErrCodeInvalidParams, old(req.ID)) && toolcalls == old(toolcalls)
+//@   ensures[C01,C12 handler-runs-exactly-once-for-a-registered-tool] old(callNameOK(req)) && old(callArgsOK(req)) && atlock(req.Params.(map[string]interface{})["name"].(string) in m.tools) ==> toolcalls == old(toolcalls) + 1
+//@ func toolManager.handleListTools
+//@   ensures[C03 tools-list-result-has-an-array] ret1 == nil && istype(ret, ListToolsResult) && ret.(ListToolsResult).Tools != nil
+
+// The table of pending server-issued requests changes only through the response manager's own
+// operations; a stream handler or a session's teardown has no business in it (C05, C11).
+//@ type responseManager
+//@   private[C05,C11] pendingRequests writers newResponseManager, RegisterRequest, UnregisterRequest, DeliverResponse
+//@ type net/http.Request
+//@   final[C03,C04,C06,C11,C13] Method, URL, Header
